@@ -1,6 +1,7 @@
 package main
 
 import (
+	"bytes"
 	"context"
 	"crypto/sha256"
 	"encoding/json"
@@ -69,7 +70,11 @@ type iworld struct {
 	W, conn   string
 	finalPath string
 	digestHex string // sha256 of the bytes the server serves / the cache holds
-	cacheHad  bool
+	cacheHad  bool   // the cache held the digest when the step started
+	installed bool   // the manifest listed name@version when the step started
+	ulog0     int64  // sizes / content when the step started: a bit means "something new since then"
+	audit0    int64
+	final0    []byte
 	mu        sync.Mutex
 	log       []ievent
 }
@@ -96,16 +101,16 @@ func (w *iworld) bits() ibits {
 			b.Cache = true
 		}
 	}
-	if fi, err := os.Lstat(filepath.Join(reg, "unsigned-installs.log")); err == nil && fi.Mode().IsRegular() && fi.Size() > 0 {
+	if fi, err := os.Lstat(filepath.Join(reg, "unsigned-installs.log")); err == nil && fi.Mode().IsRegular() && fi.Size() > w.ulog0 {
 		b.Ulog = true
 	}
 	if fi, err := os.Lstat(w.finalPath); err == nil && fi.Mode().IsRegular() {
 		data, _ := os.ReadFile(w.finalPath)
-		if string(data) != "OLD-BINARY" {
+		if w.final0 == nil || !bytes.Equal(data, w.final0) {
 			b.Final = true
 		}
 	}
-	if !w.c.Installed {
+	if !w.installed {
 		if data, err := os.ReadFile(filepath.Join(reg, "manifest.json")); err == nil {
 			var m registry.Manifest
 			if json.Unmarshal(data, &m) == nil {
@@ -115,10 +120,38 @@ func (w *iworld) bits() ibits {
 			}
 		}
 	}
-	if fi, err := os.Lstat(filepath.Join(reg, "audit.jsonl")); err == nil && fi.Mode().IsRegular() && fi.Size() > 0 {
+	if fi, err := os.Lstat(filepath.Join(reg, "audit.jsonl")); err == nil && fi.Mode().IsRegular() && fi.Size() > w.audit0 {
 		b.Audit = true
 	}
 	return b
+}
+
+// baseline records what the install directory holds at the start of a step.
+func (w *iworld) baseline() {
+	reg := filepath.Join(w.conn, ".registry")
+	w.log = nil
+	w.cacheHad, w.installed, w.ulog0, w.audit0, w.final0 = false, false, 0, 0, nil
+	if fi, err := os.Stat(filepath.Join(reg, "cache", w.digestHex, "artifact")); err == nil && fi.Mode().IsRegular() {
+		w.cacheHad = true
+	}
+	if data, err := os.ReadFile(filepath.Join(reg, "manifest.json")); err == nil {
+		var m registry.Manifest
+		if json.Unmarshal(data, &m) == nil {
+			_, w.installed = m.Installs[iName+"@"+iVersion]
+		}
+	}
+	if fi, err := os.Lstat(filepath.Join(reg, "unsigned-installs.log")); err == nil && fi.Mode().IsRegular() {
+		w.ulog0 = fi.Size()
+	}
+	if fi, err := os.Lstat(filepath.Join(reg, "audit.jsonl")); err == nil && fi.Mode().IsRegular() {
+		w.audit0 = fi.Size()
+	}
+	if fi, err := os.Lstat(w.finalPath); err == nil && fi.Mode().IsRegular() {
+		w.final0, _ = os.ReadFile(w.finalPath)
+		if w.final0 == nil {
+			w.final0 = []byte{}
+		}
+	}
 }
 
 func (w *iworld) event(name string) {
@@ -170,15 +203,64 @@ func declared(kind string, sum [32]byte) string {
 
 func digestOK(kind string) bool { return kind == "ok" || kind == "upper" || kind == "prefixed" }
 
-func (e *env) runInstall(c icase) {
+func (e *env) newWorld() *iworld {
 	W := e.dir("c")
-	defer os.RemoveAll(W)
 	conn := filepath.Join(W, "conn")
 	must(os.MkdirAll(filepath.Join(conn, ".registry"), 0o755))
 	must(os.WriteFile(filepath.Join(W, "neighbour"), []byte("n"), 0o644))
 	must(os.WriteFile(filepath.Join(conn, "other-connector"), []byte("o"), 0o755))
-	w := &iworld{c: c, W: W, conn: conn, finalPath: filepath.Join(conn, "conduit-connector-"+iName+"_"+iVersion)}
+	return &iworld{W: W, conn: conn, finalPath: filepath.Join(conn, "conduit-connector-"+iName+"_"+iVersion)}
+}
 
+// istep: what one install showed.
+type istep struct {
+	c   icase
+	coq string // hstep fields: script obs bend res outside stray
+	obs map[string]any
+}
+
+func (e *env) runInstall(c icase) {
+	w := e.newWorld()
+	defer os.RemoveAll(w.W)
+	st := e.installStep(w, c, true)
+	e.w.Add(map[string]any{"input": map[string]any{"kind": "install", "script": c}, "observed": st.obs},
+		fmt.Sprintf("KInstall %d %s", registry.VerifMaxExtractedBytes(), st.coq))
+}
+
+// ihist: several installs on the same install directory; Uninstall[i]: uninstall before step i
+// when the artifact is installed.
+type ihist struct {
+	Steps     []icase `json:"steps"`
+	Uninstall []bool  `json:"uninstall"`
+}
+
+func (e *env) runHistory(h ihist) {
+	w := e.newWorld()
+	defer os.RemoveAll(w.W)
+	var items []string
+	var obs []map[string]any
+	for i, c := range h.Steps {
+		// env knobs that need a pre-arranged directory are not part of a history
+		c.Installed, c.CacheHit, c.UlogOK, c.AuditOK, c.RenameOK, c.ManifestOK, c.OldFinal = false, false, true, true, true, true, false
+		h.Steps[i] = c
+		if i < len(h.Uninstall) && h.Uninstall[i] {
+			hx.Try(func() {
+				registry.Uninstall(registry.UninstallOptions{Name: iName, Version: iVersion, ConnectorsPath: w.conn,
+					Force: true, InstalledBy: "harness", LockTimeout: 3 * time.Second})
+			})
+		}
+		st := e.installStep(w, c, false)
+		items = append(items, "(mkStep "+st.coq+")")
+		obs = append(obs, st.obs)
+	}
+	e.w.Add(map[string]any{"input": map[string]any{"kind": "history", "steps": h.Steps, "uninstall": h.Uninstall},
+		"observed": map[string]any{"steps": obs}},
+		fmt.Sprintf("KHistory %d false %s", registry.VerifMaxExtractedBytes(), hx.List(items)))
+}
+
+func (e *env) installStep(w *iworld, c icase, prearrange bool) istep {
+	W, conn := w.W, w.conn
+	w.c = c
 	arc := filepath.Join(W, "served.tgz")
 	writeArchive(arc, c.Archive)
 	ab, err := os.ReadFile(arc)
@@ -247,14 +329,13 @@ func (e *env) runInstall(c icase) {
 
 	// ---- pre-arranged install directory ----
 	reg := filepath.Join(conn, ".registry")
-	if c.Installed {
+	if prearrange && c.Installed {
 		must(registry.SaveManifest(filepath.Join(reg, "manifest.json"), &registry.Manifest{SchemaVersion: 1,
 			Installs: map[string]registry.ManifestEntry{iName + "@" + iVersion: {Name: iName, Version: iVersion,
 				ArtifactFile: filepath.Base(w.finalPath), Digest: "sha256:" + fmt.Sprintf("%x", sum)}}}))
 	}
-	if c.CacheHit && digestOK(c.Digest) {
+	if prearrange && c.CacheHit && digestOK(c.Digest) {
 		must(registry.CachePopulate(conn, w.digestHex, ab, "pre"))
-		w.cacheHad = true
 	}
 	if !c.UlogOK {
 		must(os.MkdirAll(filepath.Join(reg, "unsigned-installs.log", "x"), 0o755))
@@ -296,6 +377,9 @@ func (e *env) runInstall(c icase) {
 		AllowUnsigned: c.Allow, TTY: c.Pol[0], CIEnv: c.Pol[1], IsMCP: c.Pol[2],
 		OperatorAllowUnsigned: c.Pol[3], EnvVarSet: c.Pol[4], TypedConfirmation: c.Pol[5],
 	}
+	w.baseline()
+	c.Installed = w.installed // what the model is told: the manifest listed it when the step started
+	c.CacheHit = prearrange && w.cacheHad
 	known := map[string]int{}
 	beforeOut, beforeIn := w.splitSnap(known)
 
@@ -337,9 +421,78 @@ func (e *env) runInstall(c icase) {
 	if ierr != nil {
 		obs["err"] = ierr.Error()
 	}
-	capBytes := registry.VerifMaxExtractedBytes()
-	e.w.Add(map[string]any{"input": map[string]any{"kind": "install", "script": c}, "observed": obs},
-		fmt.Sprintf("KInstall %d %s %s %s %s %s %s", capBytes, c.coq(), hx.List(obsItems), bend.coq(), r, hx.Bool(outside), hx.Bool(stray)))
+	return istep{c: c, obs: obs,
+		coq: fmt.Sprintf("%s %s %s %s %s %s", c.coq(), hx.List(obsItems), bend.coq(), r, hx.Bool(outside), hx.Bool(stray))}
+}
+
+func historyFromJSON(in map[string]any) ihist {
+	var h ihist
+	l, _ := in["steps"].([]any)
+	for _, it := range l {
+		h.Steps = append(h.Steps, installFromJSON(map[string]any{"script": it}))
+	}
+	u, _ := in["uninstall"].([]any)
+	for _, x := range u {
+		b, _ := x.(bool)
+		h.Uninstall = append(h.Uninstall, b)
+	}
+	return h
+}
+
+// verdict sets the trust-relevant outcome of a step.
+func verdict(c icase, v string) icase {
+	switch v {
+	case "signed", "unsigned", "reject":
+		c.Verifier = v
+	case "allow":
+		c.Allow, c.Verifier = true, "reject"
+	case "allow-denied":
+		c.Allow, c.Verifier = true, "signed"
+		c.Pol = [6]bool{true, false, false, false, true, true}
+	case "sigfetch":
+		c.Sig = "500"
+	case "wrongdigest":
+		c.Digest = "wrong"
+	}
+	return c
+}
+
+var verdicts = []string{"signed", "reject", "unsigned", "allow", "allow-denied", "sigfetch", "wrongdigest"}
+
+// historyLattice: every pair of verdicts on one install directory (uninstall in between), and
+// the three-step histories that start with an accepted install.
+func historyLattice() []ihist {
+	var out []ihist
+	for _, a := range verdicts {
+		for _, b := range verdicts {
+			out = append(out, ihist{Steps: []icase{verdict(okCase(), a), verdict(okCase(), b)}, Uninstall: []bool{false, true}})
+		}
+	}
+	for _, b := range []string{"reject", "allow", "signed"} {
+		for _, c := range []string{"reject", "unsigned", "sigfetch", "signed"} {
+			out = append(out, ihist{Steps: []icase{verdict(okCase(), "signed"), verdict(okCase(), b), verdict(okCase(), c)},
+				Uninstall: []bool{false, true, true}})
+		}
+	}
+	out = append(out, ihist{Steps: []icase{verdict(okCase(), "signed"), verdict(okCase(), "reject")}, Uninstall: []bool{false, false}})
+	return out
+}
+
+func genHistory(r *hx.Rand) ihist {
+	n := r.Range(2, 3)
+	var h ihist
+	for i := 0; i < n; i++ {
+		c := verdict(okCase(), verdicts[r.Intn(len(verdicts))])
+		if r.Chance(1, 4) {
+			c.HasProv = false
+		}
+		if r.Chance(1, 6) {
+			c.Prov = "500"
+		}
+		h.Steps = append(h.Steps, c)
+		h.Uninstall = append(h.Uninstall, i > 0 && !r.Chance(1, 6))
+	}
+	return h
 }
 
 // splitSnap: (everything in W outside the install directory, everything inside it except
